@@ -511,6 +511,11 @@ var layoutHazards = []string{
 	`module m { %H extension type { argument a; } extension prefix; leaf x { m:type string; } typedef t { m:type string; } leaf y { type t; } }`,
 	`module m { %H import e { m:prefix e; } leaf x { type e:t; } } module e { namespace "urn:e"; prefix e; typedef t { type string; } }`,
 	`module m { prefix m; m:namespace "urn:m"; leaf x { type string; } } submodule s { m:belongs-to m; leaf y { type string; } }`,
+	// restrictions of several parts of which one ends exactly where the parent set ends, or
+	// lies beyond it, written on built-in types and on typedefs that are restricted already
+	`module m { %H leaf l { type uint8 { range "%Q"; } } leaf k { type int8 { range "%Q"; } } typedef s { type string { length "1..10"; } } leaf n { type s { length "%L"; } } }`,
+	`module m { %H typedef p { type int32 { range "1..5 | 10..20"; } } typedef q { type p { range "%Q"; } } leaf l { type q { range "%Q"; } } leaf d { type decimal64 { fraction-digits 2; range "1..5 | 10..20"; } } }`,
+	`module m { %H typedef p { type string { length "1..5 | 10..20"; } } leaf l { type p { length "%L"; } } leaf b { type binary { length "%L"; } } }`,
 	// member lists with positions or values that collide, in types that get compared with each
 	// other: two members of one union, a typedef and a type that lists the members again
 	`module m { %H leaf l { type union { type bits { bit x { position %B; } bit y { position %B; } } type bits { bit w { position %B; } bit y { position %B; } } type bits { bit y; bit w; } } } }`,
@@ -545,6 +550,8 @@ var fill = map[string][]string{
 	"%P": {"/", "", "//", "/m:l", "/m:c/m:d", "../x", "/m:", "m:", "/x:y", "/m:r/m:input", "/m:l/m:l", "."},
 	"%D": {"add", "replace", "delete", "not-supported", "frobnicate", "\"\""},
 	"%B": {"0", "1", "1", "2", "4294967295", "-1"},
+	"%Q": {"250..255 | 300", "10..max | 40", "1..5 | 10..20 | 30", "120..127 | 128", "min..max | 300", "1..5 | 6", "20 | 21", "10..20 | 25..30", "5 | 10..20 | 21", "max | 300", "1..5|10..20|max"},
+	"%L": {"5..10 | 12", "10..max | 40", "1..5 | 10..20 | 30", "10 | 11", "min..max | 30", "20 | 21", "5 | 10..20 | 21", "max | 300"},
 	"%N": {"0", "1", "-1", "-0", "18", "19", "255", "256", "2147483647", "2147483648", "4294967295", "4294967296", "9223372036854775807", "9223372036854775808", "18446744073709551615", "18446744073709551616", "-18446744073709551615", "unbounded", "0x10", "1.5", "a", "\"\""},
 	"%R": {"1..5", "min..max", "5..1", "1..2..3", "0..18446744073709551615|18446744073709551615", "-0..5", "1|2|3", "max..min", "1.5..2.5", "a", "", "|", "-9223372036854775808..9223372036854775807", "1..5|3..8"},
 	"%A": {"a", "k", "true", "false", "user", "2020-01-01", "1.1", "\"a b\"", "\"\"", "x:y"},
